@@ -152,6 +152,12 @@ theorem stepApi_writes {st st' : St} {c : Api} (hr : respectful st (.api c) = tr
     rename_i ety a hg _ _ m2 hm2
     refine pres_setRemove (Ext.refl _ _) (.inl ?_) hm2
     simp [wset, hg]
+  | psRemove g p hh =>
+    simp only [stepApi] at h
+    opt_cases h
+    rename_i a hg _ _ m2 hm2
+    refine pres_setRemove (Ext.refl _ _) (.inl ?_) hm2
+    simp [wset, hg]
   | psAdd g p hh =>
     simp only [stepApi] at h
     opt_cases h
@@ -251,6 +257,14 @@ theorem wset_owner {st : St} {op : HeapOp} (hr : respectful st op = true) {x : A
       simp only [wset] at hx
       split at hx
       · rename_i ety a hg
+        simp only [respectful, hg, setOwned, Bool.and_eq_true, beq_iff_eq] at hr
+        simp only [Bool.or_eq_true, beq_iff_eq] at hx
+        exact .inr (.inr ⟨a, hr.1, hx⟩)
+      · simp at hx
+    case psRemove g p hh =>
+      simp only [wset] at hx
+      split at hx
+      · rename_i a hg
         simp only [respectful, hg, setOwned, Bool.and_eq_true, beq_iff_eq] at hr
         simp only [Bool.or_eq_true, beq_iff_eq] at hx
         exact .inr (.inr ⟨a, hr.1, hx⟩)
